@@ -48,6 +48,9 @@ CHECKS = {
  "C14": dict(engine="vsim+capture", technique="runtime monitoring: tracing subscriber capturing every event of every level plus Display/Debug renderings of every error and processing result during a tour over all other workloads; offline scan against a registry of secrets learnt in the same scenario",
    text="Exploration: on N scenarios taken from the generators of C01-C07, C12, C13, C16 and the uniffi probes, every log record of an mdk_* target and every Display / Debug / alternate-Debug rendering of an Err or MessageProcessingResult is searched for the MLS group id, every nostr group id in force, exporter secrets, image key / nonce / upload seed and database keys in lower/upper hex, decimal byte-list and 8-byte window forms; Debug of the secret-holding configuration types is probed directly.",
    note="Dependencies that log through the `log` facade (openmls) are not captured by a tracing subscriber and are outside the statement (targets of the mdk crates); data carriers (Group, Welcome, UpdateGroupResult, GroupExporterSecret's group id) are not logs or errors.", ref="5/C14"),
+ "C15": dict(engine="vsim+adversary", technique="runtime monitoring: round-trip oracles through the library's own encoders/decoders at sender, receiver and joiner, cross-checked by an independent hand-written TLS reader/writer; single-field mutation of valid encodings (forged OpenMLS group contexts, key-package events, welcome rumors, imeta tags) with accept/refuse oracle",
+   text="Exploration: N generated group-data values are encoded by the library and decoded at creator, committer, receiver and joiner, compared with the intended value, the mirrored record and an independent TLS reader (which must re-encode to identical bytes); versions 1..65535 (sampled) round-trip through forged welcomes; every single-field mutation of the listed kinds is refused for the extension, key-package events, welcome rumors and imeta tags.",
+   note="Upper-case `BASE64` as encoding value and duplicated tags are not in the property's list and are not judged.", ref="5/C15"),
  "C16": dict(engine="vsim+adversary", technique="runtime monitoring: invitation workload (valid welcome re-processed under same/fresh wrapper ids in every welcome state, accept/decline, forged welcomes built with OpenMLS by member/inviter/outsider) with before/after fingerprints of every group, stored-welcome comparison, joiner-vs-inviter state comparison and liveness probes of the existing group",
    text="Exploration: on N invitation sequences: re-processing returns the same stored welcome and changes nothing; no group is Active without accept_welcome; after accept the joiner's MLS state, members, group data, relays and mirrored record equal the inviter's post-commit state with self-update Required; no invitation changes an Active group's fingerprint and that group still processes its next message and commit; a stored welcome is never replaced.",
    note="wrapper_event_id of the stored welcome is not compared across wrapper ids; forged welcomes come from a throw-away OpenMLS group (MlsGroup::new_with_group_id) with hand-encoded group-data extension bytes.", ref="5/C16"),
